@@ -72,6 +72,11 @@ func tokenize(query string) ([]token, error) {
 			return nil, fmt.Errorf("empty qualifier or value")
 		}
 
+		// splitFunc drops empty chunks: two separators in a row don't survive the round trip
+		if strings.Join(chunks, ":") != field {
+			return nil, fmt.Errorf("empty qualifier or value")
+		}
+
 		// pre-process chunks
 		for i, chunk := range chunks {
 			if len(chunk) == 0 {
